@@ -379,6 +379,11 @@ func (m *tableMon) topupInvoke(id string, amt int64) *topup {
 func (m *tableMon) memberAfter(kind string, before, after *memberSnap, atomic bool, err error, joins []pt.JoinPlayer, leaves []string, tu *topup) {
 	c := m.c
 	m.lastMemberOpMs = c.NowMs()
+	if err == nil && len(joins) > 0 {
+		// chips arrived: the number of players with chips may have crossed the table minimum between two
+		// looks of the auditor, so "the pause condition has held ever since the settlement" is no longer known
+		m.obligedPause = false
+	}
 	tb := m.w.eng.GetTable()
 	retSeq := c.Seq()
 	if !atomic {
